@@ -26,7 +26,9 @@ import (
 )
 
 var modes = []string{"", "prefer_ocsp", "prefer_crl", "ocsp_only", "crl_only", "disabled"}
-var ocspOutcomes = []string{"no-aia", "good", "revoked", "unavailable"}
+
+// "*-after-refused": two responders are named, the first refuses the connection, the second answers
+var ocspOutcomes = []string{"no-aia", "good", "revoked", "unavailable", "good-after-refused", "revoked-after-refused"}
 
 // "listed-configured": the certificate names no CDP and is listed in the CRL configured by crl_files;
 // "listed-configured+cdp-unavailable": same, and the certificate also names a CDP that cannot be loaded
@@ -47,7 +49,7 @@ func expectReject(mode, oc, cc, shape string, aiaStrict, cdpStrict bool) bool {
 	}
 	r := false
 	if ocspEnabled(mode) {
-		r = r || oc == "revoked" || (oc == "unavailable" && aiaStrict)
+		r = r || strings.HasPrefix(oc, "revoked") || (oc == "unavailable" && aiaStrict)
 	}
 	if crlEnabled(mode) {
 		r = r || strings.HasPrefix(cc, "listed") || (strings.HasSuffix(cc, "cdp-unavailable") && cdpStrict)
@@ -76,7 +78,7 @@ type cfgKey struct {
 
 func main() {
 	run := report.New("C03", "exploration")
-	run.Rule("cells = mode{unset,prefer_ocsp,prefer_crl,ocsp_only,crl_only,disabled} x OCSP{no AIA,good,revoked,unavailable} x aia_strict x CRL{none names it,listed (CDP),not listed,CDP unavailable,listed in the configured crl_files CRL,listed there + CDP unavailable} x cdp_strict x backend x chain shape{empty, leaf-int-root, two chains, leaf-int, leaf only}; oracle = independently written mode table + side conditions from origin hit logs and a work_dir listing (disabled: no hits, work_dir untouched; ocsp_only: no CRL-origin hits; crl_only: no responder hits); non-trivial = cell whose chain list is non-empty (a mechanism could have decided); distinct = cell descriptor")
+	run.Rule("cells = mode{unset,prefer_ocsp,prefer_crl,ocsp_only,crl_only,disabled} x OCSP{no AIA,good,revoked,unavailable,good / revoked from a second responder after the first refused the connection} x aia_strict x CRL{none names it,listed (CDP),not listed,CDP unavailable,listed in the configured crl_files CRL,listed there + CDP unavailable} x cdp_strict x backend x chain shape{empty, leaf-int-root, two chains, leaf-int, leaf only}; oracle = independently written mode table + side conditions from origin hit logs and a work_dir listing (disabled: no hits, work_dir untouched; ocsp_only: no CRL-origin hits; crl_only: no responder hits); non-trivial = cell whose chain list is non-empty (a mechanism could have decided); distinct = cell descriptor")
 	run.Assume("'unavailable' is modelled by an origin answering HTTP 500 + html (fails without loader retries); the refused-connection variant is added in the thorough tier for a sample")
 	scratch, _ := report.Scratch("C03")
 	sut.QuietStderr(filepath.Join(scratch, "stderr.log"))
@@ -113,6 +115,7 @@ func main() {
 	}
 	crlDER := gen.SpecFor(w.Int, entries).Build(w.Int.Key).DER
 	nextListed := 0
+	refused := origin.RefusedURL("/ocsp")
 	// a second CRL of the same issuer, configured by crl_files for every validator
 	cfgEntries := gen.Entries(rng, gen.Opts{N: 300, SerialWidth: 8})
 	for _, e := range cfgEntries {
@@ -176,6 +179,12 @@ func main() {
 						statusOf[serial.String()] = ocsp.Revoked
 					case "unavailable":
 						aia = []string{w.OCSP.URL(prefix + "/unavail")}
+					case "good-after-refused":
+						aia = []string{refused, w.OCSP.URL(prefix + "/ok")}
+						statusOf[serial.String()] = ocsp.Good
+					case "revoked-after-refused":
+						aia = []string{refused, w.OCSP.URL(prefix + "/ok")}
+						statusOf[serial.String()] = ocsp.Revoked
 					}
 					switch cc {
 					case "listed", "not-listed":
